@@ -339,6 +339,15 @@ pub fn inputs(tier: Tier, bs: &[Base]) -> Vec<Input> {
                 v.push(Input { base: bi, on_shp: which != 3, m: Mutation::Ladder { k, which } });
             }
         }
+        // an honest part of more than 1024 points in front of the lie (8, 9); no part at all but n points (10), from n = 1
+        for k in 10..=kmax {
+            for which in [8u8, 9] {
+                v.push(Input { base: bi, on_shp: true, m: Mutation::Ladder { k, which } });
+            }
+        }
+        for k in 0..=kmax {
+            v.push(Input { base: bi, on_shp: true, m: Mutation::Ladder { k, which: 10 } });
+        }
         // partially backed ladders: the parts array (4) resp. 2^k + 1 index entries (6) are really there
         for k in 8..=tier.pick(13, 15) {
             for which in [4u8, 5, 6] {
@@ -461,9 +470,21 @@ pub fn materialise(bs: &[Base], inp: &Input) -> Option<(Vec<u8>, Vec<u8>)> {
                     if *which == 7 && fam == Family::Multipoint {
                         return None;
                     }
+                    if (*which == 8 || *which == 9 || *which == 10) && fam == Family::Multipoint {
+                        return None;
+                    }
+                    // 8 / 9: an honest first part of 1025 / 3000 points that are really there, then a last part declaring n more
+                    let real: i64 = match which {
+                        8 => 1025,
+                        9 => 3000,
+                        _ => 0,
+                    };
                     let (parts, points): (i64, i64) = match which {
                         0 | 7 => (1, n),
                         1 => (n, 0),
+                        8 | 9 => (2, real + n),
+                        // no part at all, n points
+                        10 => (0, n),
                         _ => (n, n),
                     };
                     let mut size: i64 = 4 + 32 + 4; // type, box, numpoints
@@ -491,7 +512,21 @@ pub fn materialise(bs: &[Base], inp: &Input) -> Option<(Vec<u8>, Vec<u8>)> {
                         bytes.extend((parts as i32).to_le_bytes());
                     }
                     bytes.extend((points as i32).to_le_bytes());
-                    if *which == 7 {
+                    if *which == 8 || *which == 9 {
+                        bytes.extend(0i32.to_le_bytes());
+                        bytes.extend((real as i32).to_le_bytes());
+                        if fam == Family::Multipatch {
+                            bytes.extend(0i32.to_le_bytes());
+                            bytes.extend(1i32.to_le_bytes());
+                        }
+                        for i in 0..real {
+                            bytes.extend((i as f64).to_le_bytes());
+                            bytes.extend((-(i as f64)).to_le_bytes());
+                        }
+                    } else if *which == 10 {
+                        // what little follows is not what is declared (for small n it is more than declared)
+                        bytes.extend([0u8; 64]);
+                    } else if *which == 7 {
                         // the single part starts at num_points: it is empty, no x/y data is needed,
                         // the Z / M range blocks are there, the per-point arrays are not
                         bytes.extend((points as i32).to_le_bytes());
@@ -660,6 +695,36 @@ pub fn drive(prop: Prop, shp: &[u8], shx: &[u8], hdr_ty: Ty) -> CaseResult {
             m.call("seek", || r.seek(i).is_ok());
             if let Some(mut it) = m.call("iter_shapes()+shx", || r.iter_shapes()) {
                 m.call("seek+next", || it.next().map(|x| x.is_ok()));
+            }
+        }
+    }
+    // 5. the iterators driven through the std adaptors an iterator type may override
+    {
+        use crate::iterprog::{self, Prog};
+        for p in [Prog::NextNthHuge, Prog::NthHuge, Prog::NextLast, Prog::Count, Prog::StepBy(2), Prog::NextSkip(1), Prog::NthNext(1)] {
+            if let Some(Ok(mut r)) = m.call("new", || ShapeReader::new(Dev::quiet(shp.to_vec()))) {
+                let o = m.call(&format!("iter_shapes().{}", p.name()), || {
+                    let o = iterprog::run(r.iter_shapes(), p, cap);
+                    (o.answers.len(), o.count)
+                });
+                if let (Some((n, c)), Prop::C07) = (o, prop) {
+                    m.out.u64(n as u64);
+                    if n > cap || c.unwrap_or(0) > cap {
+                        m.findings.push((format!("iter_shapes().{}:iteration-does-not-end", p.name()), format!("{} items / count {:?} from an input of {} bytes", n, c, total)));
+                    }
+                }
+            }
+            if let Some(Ok(mut r)) = m.call("with_shx", || ShapeReader::with_shx(Dev::quiet(shp.to_vec()), Dev::quiet(shx.to_vec()))) {
+                let o = m.call(&format!("iter_shapes()+shx.{}", p.name()), || {
+                    let o = iterprog::run(r.iter_shapes(), p, cap);
+                    (o.answers.len(), o.count)
+                });
+                if let (Some((n, c)), Prop::C07) = (o, prop) {
+                    m.out.u64(n as u64);
+                    if n > cap || c.unwrap_or(0) > cap {
+                        m.findings.push((format!("iter_shapes()+shx.{}:iteration-does-not-end", p.name()), format!("{} items / count {:?} from an input of {} bytes", n, c, total)));
+                    }
+                }
             }
         }
     }
